@@ -11,6 +11,8 @@ import (
 	"github.com/anyproto/any-sync/consensus/consensusproto"
 	"github.com/anyproto/any-sync/util/cidutil"
 
+	"github.com/anyproto/any-sync/commonspace/object/acl/aclrecordproto"
+	"github.com/anyproto/any-sync/util/crypto"
 	"verif/sim/core"
 	"verif/sim/simlib"
 )
@@ -26,10 +28,10 @@ func init() { props["C03"] = runC03 }
 
 type c03 struct {
 	*world
-	obs     []*observer
-	pub     []string            // public digest of the reference (consensus) state after record k
-	refs    map[string]list.AclList // per observer identity: full validation, in-memory, one at a time
-	priv    map[string][]string // private digest of that reference after record k
+	obs  []*observer
+	pub  []string                // public digest of the reference (consensus) state after record k
+	refs map[string]list.AclList // per observer identity: full validation, in-memory, one at a time
+	priv map[string][]string     // private digest of that reference after record k
 }
 
 func (c *c03) recordRefs() {
@@ -305,6 +307,21 @@ func runC03(r *core.Run) {
 			bad, what := c.corrupt(k, &acceptorOnly)
 			if acceptorOnly && o.full {
 				continue // a fully validating list does not look at acceptor fields: not a forgery for it
+			}
+			if inBatch && o.full && s.Flip("half-valid-record", 0.4) {
+				// a well-signed record on top of the good one whose first content applies and whose second does not:
+				// nothing of it may stay in the state
+				kp, _, err := crypto.GenerateRandomEd25519KeyPair()
+				must(err)
+				ik, err := kp.GetPublic().Marshall()
+				must(err)
+				data := &aclrecordproto.AclData{AclContent: []*aclrecordproto.AclContentValue{
+					{Value: &aclrecordproto.AclContentValue_Invite{Invite: &aclrecordproto.AclAccountInvite{InviteKey: ik, InviteType: aclrecordproto.AclInviteType_RequestToJoin}}},
+					{Value: &aclrecordproto.AclContentValue_InviteRevoke{InviteRevoke: &aclrecordproto.AclAccountInviteRevoke{InviteRecordId: "no-such-invite"}}},
+				}}
+				bad = simlib.Wrap(w.space.SignData(w.accs[0], data, w.chain[head+1].Id))
+				what = "a first content that applies and a second that does not"
+				r.Probe("half-valid-record-in-batch")
 			}
 			before := c.snap(o)
 			var err error
